@@ -51,8 +51,10 @@ class RL(ASTNode):
         # validates AFTER the base initialisation: a replace() that fails here fails late,
         # when the new node already exists (and is registered)
         ASTNode.__post_init__(self)
-        if self.nc < 0:
+        if self.nc == -1:
             raise ValueError("negative nc")
+        if self.nc < -1:
+            raise ZeroDivisionError("a failure of another kind in a model's own validation")
 
 
 @dataclass(frozen=True)
@@ -218,7 +220,9 @@ class Model:
         for r, n in enumerate(nodes):
             ops += [("detach", r), ("detach_self", r), ("rep_bad", r)]
             if isinstance(n, RL):
-                ops.append(("rep_bad_late", r))
+                ops += [("rep_bad_late", r), ("rep_bad_late_other", r)]
+            else:
+                ops.append(("rep_bad_child", r))
         for i, s in enumerate(w.slots):
             if s is not None:
                 ops.append(("drop", i))
@@ -305,17 +309,21 @@ class Model:
             else:
                 new = construct(lambda: src.replace(c=None))
             w.track(new)
-        elif k in ("rep_bad", "rep_bad_late"):
+        elif k in ("rep_bad", "rep_bad_late", "rep_bad_late_other", "rep_bad_child"):
             src = nodes[op[1]]
             before = {i: id(o) for i, o in NODE_REGISTRY.items()}
             ids_before = [(n.id, hash(n)) for n in nodes]
             try:
                 if k == "rep_bad":
                     src.replace(nosuch=1)
-                else:
+                elif k == "rep_bad_late":
                     src.replace(nc=-1)
+                elif k == "rep_bad_late_other":
+                    src.replace(nc=-2)
+                else:
+                    src.replace(c="not a node")      # fails while the ids are computed
                 errs.append(("no-raise", "a failing replace did not raise"))
-            except (TypeError, ValueError):
+            except (TypeError, ValueError, ZeroDivisionError, AttributeError):
                 pass
             after = {i: id(o) for i, o in NODE_REGISTRY.items()}
             if before != after:
